@@ -69,6 +69,16 @@ CHECKS = {
          "changes inside the measure harness are outside. Known finding KF-C10-pickup-short-part.",
     technique="symbolic execution of real code (CrossHair/z3) vs in-force oracle",
     ref="DESIGN.md §2 C10"),
+ "C13": dict(
+    text="Symbolic execution of the real _make_pianoroll on 2-3 notes in any order with symbolic pitch, velocity and onset frame (durations "
+         "enumerated 0..3 frames), a concrete sub-frame offset and an option tuple per instance, against an independent rasteriser written "
+         "from the statement: shape, exact cell set, own velocity / max on collision / 1 in binary mode, per-note index rows in input order. "
+         "Path trees exhausted per instance.",
+    note="Models: np constructors/ufuncs on object arrays, csc_matrix (dictionary of keys), defaultdict. compute_pianoroll field selection, "
+         "the pitch-class fold and pianoroll_to_notearray are dense numeric kernels checked on concrete vectors with the real numpy/scipy "
+         "only. Exact half-frame rounding ties and negative onsets are outside.",
+    technique="symbolic execution of real code (CrossHair/z3) vs independent rasteriser",
+    ref="DESIGN.md §2 C13"),
 }
 NOT_APPLICABLE = {
  "C18": "float32/transcendental codec chain (log2, 2**x, mean/std, symbolic/symbolic division) over ~600 lines of vectorised numpy: non-linear with transcendental terms, z3 answers unknown; no sound bounded encoding within reach (DESIGN.md §2 C18)",
